@@ -184,8 +184,10 @@ def worst(diffs: list[tuple[str, str]]) -> tuple[str, str]:
 class Run:
     """Interpreter of one history."""
 
-    def __init__(self, seed: int, enum: str = 'one', enum_rng: typing.Optional[random.Random] = None):
+    def __init__(self, seed: int, enum: str = 'one', enum_rng: typing.Optional[random.Random] = None,
+                 registry: str = 'posix'):
         self.seed = seed
+        self.registry = registry  # 'volatile': one process, no durability - only the history half is judged
         self.box = boxmod.Box(OPTABLE, seed, prefix='c05-')
         self.model: dict = {}
         self.digests: dict[str, str] = {}
@@ -218,7 +220,7 @@ class Run:
 
     def incarnation(self) -> boxmod.Child:
         if self.child is None or not self.child.alive:
-            self.child = boxmod.Child(self.box.root, OPTABLE, self.child_seed())
+            self.child = boxmod.Child(self.box.root, OPTABLE, self.child_seed(), env={'C05_REGISTRY': self.registry})
             self.stats['incarnations'] += 1
         return self.child
 
@@ -304,6 +306,17 @@ class Run:
         return res.value
 
     def verify(self, where: str, warm: bool = True) -> None:
+        if self.registry == 'volatile':
+            res = self.incarnation().call('observe')
+            self.stats['warm_reads'] += 1
+            if not res.ok:
+                raise base.Violation('reader-failed', f'{where}: {res.exc} {res.value}')
+            diffs = diff(res.value, expected(self.model))
+            self.events.append([where, base.digest(res.value)])
+            if diffs:
+                klass, detail = worst(diffs)
+                raise base.Violation(klass, f'{where}: volatile registry: {detail}')
+            return
         obs = self.observe_fresh()
         diffs = diff(obs, expected(self.model))
         self.events.append([where, base.digest(obs)])
@@ -698,7 +711,12 @@ def run_seed(job: tuple) -> dict:
     seed, enum = job
     rng = random.Random(seed)
     ops = gen_history(rng)
-    run = Run(seed, enum)
+    registry = 'volatile' if seed % 10 == 9 else 'posix'
+    if registry == 'volatile':
+        ops = [{**o, 'crash': None, 'other': False, 'interleave': None, 'kind': 'dir'} if o['op'] in
+               ('publish', 'train', 'begin', 'commit') else o for o in ops if o['op'] not in ('restart', 'prune', 'mount')
+               and not o.get('lose')]
+    run = Run(seed, 'none' if registry == 'volatile' else enum, registry=registry)
     out = {'seed': seed, 'violations': [], 'harness': None}
     try:
         try:
@@ -712,6 +730,7 @@ def run_seed(job: tuple) -> dict:
         out['shapes'] = [base.digest(s) for s in run.shapes]
         out['digest'] = base.digest(run.events)
         out['nops'] = len(ops)
+        out['stats'][f'registry:{registry}'] = 1
         out['sample'] = {'seed': seed, 'ops': [_brief(o) for o in run.trace]}
     finally:
         run.close()
@@ -853,9 +872,10 @@ def main(argv: list[str]) -> int:
         'fault_kinds_fired': {k[6:]: v for k, v in stats.items() if k.startswith('fault:')},
         'settled': {k[8:]: v for k, v in stats.items() if k.startswith('settled:')},
         'counters': {k: v for k, v in stats.items() if ':' not in k},
+        'histories_by_registry': {k[9:]: v for k, v in stats.items() if k.startswith('registry:')},
         'runs_per_hour': round(len(results) / wall * 3600) if wall else 0,
         'crash_points_per_hour': round(evaluations / wall * 3600) if wall else 0,
-        'real_components': ['posix.Registry', 'asset.Directory/Project/Release/Generation/Tag', 'asset.State',
+        'real_components': ['posix.Registry', 'volatile.Registry (every tenth history: one process, history half only)', 'asset.Directory/Project/Release/Generation/Tag', 'asset.State',
                             'asset.Instance', 'project.Package/Manifest (zip and directory packages)',
                             'real file system under a per-run directory', 'OS processes (fork per incarnation)'],
         'stubbed_components': ['uuid4/random (seeded per incarnation)', 'datetime.utcnow in minor.py (virtual)',
